@@ -195,7 +195,10 @@ class C17(runner.Check):
 			"seed_type": r.wchoice(["int", "numpy.int64"], [4, 1])}
 		if leg == "realpool":
 			case["execs"] = [{"pool": "sim", "W": 1, "seed": 0}] + [
-				{"pool": "loky", "n_jobs": nj} for nj in (1, 2, 3)]
+				{"pool": "loky", "n_jobs": nj} for nj in (1, 2, 3)] + [
+				{"pool": "subproc", "hashseed": p.randint(1, 10 ** 6)} for _ in range(2)]
+		elif leg == "sim" and r.chance(0.04):
+			case["execs"].append({"pool": "subproc", "hashseed": p.randint(1, 10 ** 6)})
 		if leg == "faulty":
 			f = S("faults")
 			kind = f.choice(["pool.fail", "env.missing_chrom"] if (use_bw and len(chroms) > 1)
@@ -405,6 +408,45 @@ class C17(runner.Check):
 				where = "execution %d (%s)" % (ei, ", ".join("%s=%s" % kv for kv in
 					sorted(plan.items())))
 				pool = SimPool(plan)
+				if ex["pool"] == "subproc":
+					# the same call in a fresh interpreter under another string-hash seed
+					import pickle, subprocess, sys as _sys
+					fin = os.path.join(scratch, tag + ".sub.in")
+					fout = os.path.join(scratch, tag + ".sub.out")
+					kw_ = dict(in_window=kw["in_window"], out_window=kw["out_window"],
+						max_n_perc=kw["max_n_perc"], gc_bin_width=kw["gc_bin_width"],
+						bigwig=bwp, signal_beta=kw["signal_beta"], chroms=kw["chroms"],
+						random_state=kw["random_state"])
+					with open(fin, "wb") as f_:
+						pickle.dump({"loci": loci_arg if isinstance(loci_arg, str) else
+							{"rows": case["loci"]}, "fasta": fa, "kw": kw_}, f_)
+					env = dict(os.environ, PYTHONHASHSEED=str(ex["hashseed"]))
+					subprocess.run([_sys.executable, "-B", os.path.join(repo.VERIF, "engines",
+						"c17sub.py"), fin, fout], env=env, capture_output=True, timeout=300)
+					res_ = pickle.load(open(fout, "rb")) if os.path.exists(fout) else \
+						{"error": "helper produced no output"}
+					for p_ in (fin, fout):
+						try:
+							os.remove(p_)
+						except OSError:
+							pass
+					out.bump("exec.subproc_other_hashseed")
+					out.steps += 1
+					if "error" in res_:
+						out.violate("raised", "%s: extract_matching_loci in a fresh interpreter "
+							"%s" % (where, res_["error"]), key="subproc")
+						break
+					rows = res_["rows"]
+					log.log("exec", ei, plan, rows)
+					if first is not None and rows != first[0]:
+						a, b = set(first[0]), set(rows)
+						out.violate("schedule_dependent", "%s (a fresh interpreter with "
+							"PYTHONHASHSEED=%d) returns a different result than %s for the same "
+							"random_state=%d: %d vs %d rows, %d in common" % (where, ex["hashseed"],
+							first[1], kw["random_state"], len(rows), len(first[0]), len(a & b)),
+							key="hashseed")
+						break
+					continue
 				if ex["pool"] == "sim":
 					self.match.Parallel = pool.factory()
 					n_jobs = ex["W"]
